@@ -230,27 +230,79 @@ example : opContains (.slice .any [.int .int 1, .str [97]]) (.flt .f64 1) =
     containsList [.int .int 1, .str [97]] (.flt .f64 1) :=
   (contains_arr _ _ _ (by rfl)).1
 
-/-- map `contains` is key membership: the needle must have the map's key type -/
+/-- map `contains` is key membership, by the same lookup as `m[k]` (`GoVal.indexValue`): the needle is
+converted to the map's key type as far as Go allows (an integer never becomes a string key), and the map
+contains it exactly when that key has an entry -/
 theorem contains_map (a b : GoVal) (kt vt : Ty) (kvs : List (GoVal × GoVal))
     (ha : strip a = .map kt vt kvs) :
     opContains a b =
       (if (strip b).isNil then .ok false
-       else if keyTyOf (strip b) = some kt then (mapIndex kvs (strip b)).bind fun r => .ok r.isSome
-       else .ok false) := by
+       else match GoVal.convertKey kt (strip b) with
+         | none => .unmodelled "map key conversion"
+         | some none => .ok false
+         | some (some k) => .ok (GoVal.mapFind kvs k).isSome) := by
   rw [opContains_eq, ha]
-  simp [wrapOf, valueOf, containsW, mapView]
+  simp only [wrapOf, valueOf, containsW, mapView, bind, Res.bind]
+  by_cases hn : (strip b).isNil = true
+  · simp [hn]
+  · simp only [hn, if_false, Bool.false_eq_true]
+    cases GoVal.convertKey kt (strip b) with
+    | none => rfl
+    | some o => cases o <;> rfl
+
+/-- `contains` agrees with indexing: when the needle converts to a key, the map contains it iff
+`m[k]` finds an entry (the value `indexValue` returns is that entry) -/
+theorem contains_map_agrees_with_lookup (a b : GoVal) (kt vt : Ty) (kvs : List (GoVal × GoVal)) (k : GoVal)
+    (ha : strip a = .map kt vt kvs) (hb : (strip b).isNil = false)
+    (hk : GoVal.convertKey kt (strip b) = some (some k)) :
+    opContains a b = .ok (GoVal.mapFind kvs k).isSome := by
+  rw [contains_map a b kt vt kvs ha, hb, hk]; rfl
+
+theorem mapFind_str_isSome_iff (kvs : List (GoVal × GoVal)) (s : Bytes) :
+    (GoVal.mapFind kvs (.str s)).isSome = true ↔ some (Key.str s) ∈ keyList kvs := by
+  have key : ∀ g : GoVal, (GoVal.ifaceEq g (.str s) == some true) = true ↔ toKey g = some (Key.str s) := by
+    intro g; cases g <;> simp [GoVal.ifaceEq, toKey]
+  induction kvs with
+  | nil => simp [GoVal.mapFind, keyList]
+  | cons e rest ih =>
+    by_cases h : (GoVal.ifaceEq e.1 (.str s) == some true) = true
+    · have : toKey e.1 = some (Key.str s) := (key e.1).1 h
+      simp [GoVal.mapFind, List.find?, h, keyList, this]
+    · have hne : toKey e.1 ≠ some (Key.str s) := fun hh => h ((key e.1).2 hh)
+      have h' : (GoVal.ifaceEq e.1 (.str s) == some true) = false := by simpa using h
+      have hstep : GoVal.mapFind (e :: rest) (.str s) = GoVal.mapFind rest (.str s) := by
+        simp [GoVal.mapFind, List.find?, h']
+      rw [hstep]
+      constructor
+      · intro hm
+        simp only [keyList, List.map_cons, List.mem_cons]
+        exact Or.inr (ih.1 hm)
+      · intro hm
+        simp only [keyList, List.map_cons, List.mem_cons] at hm
+        rcases hm with hm | hm
+        · exact absurd hm.symm hne
+        · exact ih.2 hm
 
 /-- for the usual string-keyed map and a string needle -/
 theorem contains_map_str (a b : GoVal) (vt : Ty) (kvs : List (GoVal × GoVal)) (s : Bytes)
     (ha : strip a = .map .str vt kvs) (hb : strip b = .str s) :
     ∃ r, opContains a b = .ok r ∧ (r = true ↔ some (Key.str s) ∈ keyList kvs) := by
   rw [contains_map a b .str vt kvs ha, hb]
-  refine ⟨(lookupKey (.str s) kvs).isSome, by simp [GoVal.isNil, keyTyOf, mapIndex, toKey], ?_⟩
-  exact lookupKey_isSome_iff _ _
+  exact ⟨(GoVal.mapFind kvs (.str s)).isSome, by simp [GoVal.isNil, GoVal.convertKey], mapFind_str_isSome_iff kvs s⟩
+
+/-- an integer needle is never a key of a string-keyed map (no code-point conversion) -/
+theorem contains_map_str_int (a b : GoVal) (vt : Ty) (kvs : List (GoVal × GoVal)) (k : IntKind) (n : Int)
+    (ha : strip a = .map .str vt kvs) (hb : strip b = .int k n) : opContains a b = .ok false := by
+  rw [contains_map a b .str vt kvs ha, hb]; simp [GoVal.isNil, GoVal.convertKey]
 
 example : opContains (.map .str .any [(.str [97], .int .int 1)]) (.str [97]) = .ok true ∧
     opContains (.map .str .any [(.str [97], .int .int 1)]) (.str [98]) = .ok false ∧
     opContains (.map .str .any [(.str [97], .int .int 1)]) (.int .int 1) = .ok false := by decide +kernel
+/-- a map with keys of type `any` (what a YAML document unmarshals to) contains its string key;
+    an `int64`-keyed map contains the `int` 2 -/
+example : opContains (.map .any .any [(.str [97], .int .int 1)]) (.str [97]) = .ok true ∧
+    opContains (.map (.int .i64) .any [(.int .i64 2, .str [120])]) (.int .int 2) = .ok true ∧
+    opContains (.map (.int .i64) .any [(.int .i64 2, .str [120])]) (.int .int 3) = .ok false := by decide +kernel
 example : ∃ r, opContains (.map .str .any [(.str [97], .int .int 1)]) (.drop (.str [97])) = .ok r ∧
     (r = true ↔ some (Key.str [97]) ∈ keyList [(.str [97], .int .int 1)]) :=
   contains_map_str _ _ _ _ _ (by rfl) (by rfl)
